@@ -282,6 +282,9 @@ def run(run: C.Run):
     R.check_reduce_cases(run, big_cases(rng, 250 if thorough else 40), "C02", nontrivial, grouped_fn=grouped_fn, vs_eager=True, model=False)
     from tools.lib import fuzz as Z
     Z.run_stream(run, rng, 2500 if thorough else 260, "C02")
+    # labels discovered at compute time under order-sensitive reductions (disjoint / descending / all-missing blocks): chunked = in memory
+    from tools.props.c06 import unknown_label_cases
+    unknown_label_cases(run, rng, 1000 if thorough else 120, pid="C02")
     nd_batch_cases(run, rng, 1500 if thorough else 250)
     if not proofs_ok and not run.violations:
         run.violation({"property": "C02", "kind": "proof obligation no longer checks",
